@@ -185,9 +185,6 @@ func c19Execute(capPath, events string, trace bool) (viols []c19Viol, err error)
 	settle := func() { quiesce.Wait() }
 	/* The constructor's AfterFunc(0) fires at once on a real clock. */
 	vtime.Advance(0, settle)
-	if 0 == vtime.Created() {
-		return nil, fmt.Errorf("the vtime shim is not linked into lib/opshell (wrong build flavour)")
-	}
 	ts.output()
 	m := &c19Model{}
 	add := func(sig, what string, i int) {
@@ -332,6 +329,12 @@ func c19Execute(capPath, events string, trace bool) (viols []c19Viol, err error)
 			}
 		}
 	}
+	/* (Linkage: the overlay generator refuses to build this flavour unless
+	it could redirect opshell.go's time import; a Shell that has been muted
+	has armed a timer on the virtual clock one way or another.) */
+	if strings.Contains(events, "O") && 0 == vtime.Created() {
+		return nil, fmt.Errorf("Ctrl+O was pressed and no timer was armed on the virtual clock: the vtime shim is not linked into lib/opshell (wrong build flavour)")
+	}
 	return viols, nil
 }
 
@@ -472,7 +475,7 @@ func c19(r *ev.Result, tier string) {
 	}
 	/* Lock interleavings: Ctrl+O (and Ctrl+I) arriving while output or a
 	status line is being written, under every order of the lock steps. */
-	scenarios := []string{"KP", "KS", "MKP", "MKS", "KPS", "IK", "IP", "MTP", "MTPS", "MTK"}
+	scenarios := []string{"KP", "KS", "MKP", "MKS", "KPS", "IK", "IP", "MTP", "MTPS", "MTK", "KKP", "PKK", "MKKP"}
 	parallel(len(scenarios), func(i int) {
 		out, err := runCttyWorker("c19locks", scenarios[i], base)
 		var res struct {
